@@ -163,6 +163,14 @@ def s_range(ctx, rid, fx, cls, reg):
     n = 0
     for a in fx.find(domain="sync", target=reg):
         delta = lin.sub(lin.linform(a.value), {reg: 1})
+        if reg not in lin.linform(a.value):
+            # plain load: decided for integer literals only (anything else is a value computed elsewhere)
+            if isinstance(a.value, ast.Constant) and isinstance(a.value.value, int):
+                c = lin.const(int(a.value.value))
+                ok = lin.sign(c) in (0, 1) and lin.sign(lin.sub(c, lin.sub(M, lin.const(1)))) in (0, -1)
+                n += 1
+                ctx.ob(rid, fx.rel, cls, f"{reg} <= {a.v}: inside 0..max-1", ok, "" if ok else f"literal {a.v} outside 0..{lin.show(M)}-1", a.line)
+            continue
         if reg in delta:
             ctx.ob(rid, fx.rel, cls, f"{reg} <= {short(a.v, 50)}", False, f"not of the form {reg} + d", a.line)
             continue
@@ -191,6 +199,17 @@ def s_range(ctx, rid, fx, cls, reg):
                 if not B.entails(G, f):
                     continue
                 op = op0
+                # reg != T with T the top (bottom) of the range tightens the implicit bound by one
+                if (op is ast.Eq and not pol) or (op is ast.NotEq and pol):
+                    if lin.sign(lin.sub(T, lin.sub(M, lin.const(1)))) == 0:
+                        ups.append(lin.sub(M, lin.const(2)))
+                    if lin.sign(T) == 0:
+                        los.append(lin.const(1))
+                    continue
+                if (op is ast.Eq and pol) or (op is ast.NotEq and not pol):
+                    ups.append(T)
+                    los.append(T)
+                    continue
                 if not pol:
                     op = {ast.Lt: ast.GtE, ast.LtE: ast.Gt, ast.Gt: ast.LtE, ast.GtE: ast.Lt}.get(op)
                 if op is ast.Lt:
